@@ -5,7 +5,8 @@
    states reachable from the start of a height) and all inputs: proposals, parts, votes for any
    round or height, forged and conflicting votes, timeouts. *)
 From Coq Require Import List NArith ZArith Lia Bool.
-From AnnVerif Require Import Base.Res Base.Bytes Model.VoteSet Model.ValSet Model.Node Proofs.NodeProofs.
+From AnnVerif Require Import Base.Res Base.Bytes Model.VoteSet Model.ValSet Model.Node Proofs.PowerSum Proofs.NodeProofs
+  Proofs.NodeBacked Proofs.Emit Proofs.SgWalk.
 Import ListNotations.
 Open Scope Z_scope.
 
@@ -89,3 +90,24 @@ Example c04_nonvacuous :
   ex_summary (match ex_n0 with Ok n => run (mkCfg false) ex_lock_inputs n | _ => Panic 0 end) = Some (0, 6, 0, Some [7%N]) /\
   ex_summary (match ex_n0 with Ok n => run (mkCfg false) (ex_lock_inputs ++ ex_release_inputs) n | _ => Panic 0 end) = Some (1, 6, 0, None).
 Proof. vm_compute. split; reflexivity. Qed.
+
+(* (8) the votes of one handled input, in terms of what was delivered to the node (every function
+   of the node model walked): a precommit for a block rests on delivered valid prevotes for it, at
+   its round, from more than two thirds of the power; a prevote for something else than a block
+   the node precommitted earlier rests on a delivered polka for something else in a round in
+   between ([goods]); and the lock bookkeeping [J] is kept.  These are R2 and R3 on delivered
+   votes, the form Proofs/System.v composes. *)
+Theorem c04_votes_rest_on_deliveries :
+  forall (VS : list validator), bounded VS -> forall (h0 : Z) (c : cfg) (i : input), c_skip_commit c = false ->
+  forall off pcs n n' o, J VS h0 off pcs n -> height n = h0 -> input_ok i n -> handle c i n = Ok (n', o) ->
+    J VS h0 (delivered_of i ++ off) (pcs_after o pcs) n' /\ goods VS h0 (delivered_of i ++ off) pcs o.
+Proof. exact T_handle. Qed.
+Print Assumptions c04_votes_rest_on_deliveries.
+
+(* (9) the votes of one handled input, in terms of the signer: in order, each is either fresh -
+   strictly after everything signed before - or the repetition of exactly the vote last signed *)
+Theorem c04_signer_discipline :
+  forall (c : cfg) (i : input), c_skip_commit c = false ->
+  forall n n' o, handle c i n = Ok (n', o) -> sgrel (height n) (sg n) o (sg n').
+Proof. exact SG_handle. Qed.
+Print Assumptions c04_signer_discipline.
